@@ -45,6 +45,42 @@ def verifySigma (instr : String) (b : Bytes) : Option Bool :=
   | "cap" => some (Cap.verifyProof CSc CPt CT b)
   | _ => none
 
+/-- the Fiat–Shamir challenges the verifier draws for these bytes, with their labels, in drawing
+    order (`none` when the bytes do not decode); computed with the model's own challenge functions -/
+def traceSigma (instr : String) (b : Bytes) : Option (List (String × CSc)) :=
+  match instr with
+  | "zero" => (ZeroCt.parse (Sc := CSc) (Pt := CPt) b).map fun p =>
+      let cw := ZeroCt.challenges CT p.P p.ct p.ypB p.ydB p.z
+      [("c", cw.1), ("w", cw.2)]
+  | "pubkey" => (PubkeyValidity.parse (Sc := CSc) (Pt := CPt) b).map fun p =>
+      [("c", PubkeyValidity.challenge CSc CT p.P p.yB)]
+  | "ctct" => (CtCtEq.parse (Sc := CSc) (Pt := CPt) b).map fun p =>
+      let cw := CtCtEq.challenges CT p.P1 p.P2 p.ct1 p.ct2 p.y0B p.y1B p.y2B p.y3B p.zs p.zx p.zr
+      [("c", cw.1), ("w", cw.2)]
+  | "ctcmt" => (CtCmtEq.parse (Sc := CSc) (Pt := CPt) b).map fun p =>
+      let cw := CtCmtEq.challenges CT p.P p.ct p.Cm p.y0B p.y1B p.y2B p.zs p.zx p.zr
+      [("c", cw.1), ("w", cw.2)]
+  | "val2" | "val3" =>
+      let n := if instr == "val3" then 3 else 2
+      (Validity.parse (Sc := CSc) (Pt := CPt) n b).map fun p =>
+        let cw := Validity.challengesDirect n (Validity.transcript0 CT n p.Ps p.g) p.pf
+        [("c", cw.1), ("w", cw.2)]
+  | "bval2" | "bval3" =>
+      let n := if instr == "bval3" then 3 else 2
+      (BatchedValidity.parse (Sc := CSc) (Pt := CPt) n b).map fun p =>
+        let tt := BatchedValidity.challengeT (Sc := CSc) CT n p.Ps p.lo p.hi
+        let cw := Validity.challengesDirect n tt.2 p.pf
+        [("t", tt.1), ("c", cw.1), ("w", cw.2)]
+  | "cap" => (Cap.parse (Sc := CSc) (Pt := CPt) b).map fun p =>
+      let cw := Cap.challenges CT p
+      [("c", cw.1), ("w", cw.2)]
+  | _ => none
+
+def showTrace (tr : Option (List (String × CSc))) : String :=
+  match tr with
+  | none => ""
+  | some l => " ~" ++ ",".intercalate (l.map fun (lab, s) => s!"{lab}={toHex (ScCodec.enc s)}")
+
 def allSome {α} (l : List (Option α)) : Option (List α) := l.mapM id
 
 /-- statement/witness arity of `new`/`prove` per instruction: (#scalars-or-points spec) is handled
@@ -242,7 +278,7 @@ def opVerify (a : List String) : String :=
   | [instr, h] =>
     match ofHex h with
     | some b => match verifySigma instr b with
-      | some v => verdict v
+      | some v => verdict v ++ showTrace (traceSigma instr b)
       | none => "bad-op"
     | none => "bad-op"
   | _ => "bad-op"
